@@ -178,6 +178,10 @@ func VerifLifecycleForceStop() {
 	stopAfter := verifConcrete(verifChoice("stopAfter", K+1))
 	w, svc := newLifecycleWorld(lCfg{K: K, M: 1, stopAfter: stopAfter, dlqSize: 0, dlqTh: 0, recovery: lRecovery(3)})
 	w.dests["dest0"].block = verifBool("destBlocks")
+	if !w.dests["dest0"].block {
+		// ... or the destination rejects and the DLQ connector is the unresponsive one
+		w.dlqBlocks = verifBool("dlqBlocks")
+	}
 	graceFirst := verifBool("gracefulFirst")
 	ctx := context.Background()
 	if err := svc.Start(ctx, "pl"); err != nil {
@@ -187,6 +191,15 @@ func VerifLifecycleForceStop() {
 		select {
 		case <-served:
 		case <-time.After(time.Second): // an unresponsive destination stalls the flow: do not wait for more records
+		}
+	}
+	if verifBool("settleBeforeStop") {
+		// let the records in flight travel as far as they get (an unresponsive
+		// destination leaves them written and unconfirmed) before stopping
+		if verifSymbolic() {
+			time.Sleep(10 * time.Millisecond)
+		} else {
+			time.Sleep(100 * time.Millisecond)
 		}
 	}
 	gctx, gcancel := context.WithCancel(ctx)
@@ -229,6 +242,10 @@ func VerifLifecycleForceStop() {
 	// it can be started again and resumes from the durable position
 	w.mu.Lock()
 	w.dests["dest0"].block = false
+	w.dlqBlocks = false
+	for _, d := range w.dests {
+		d.block = false
+	}
 	w.src.stopAfter, w.src.served = 0, nil
 	acked := len(w.src.acks)
 	w.mu.Unlock()
